@@ -68,6 +68,7 @@ import (
 	"github.com/cloudwego/hertz/pkg/protocol"
 	"github.com/cloudwego/hertz/pkg/protocol/client"
 	"github.com/cloudwego/hertz/pkg/protocol/consts"
+	"github.com/cloudwego/hertz/pkg/protocol/http1/ext"
 	"github.com/cloudwego/hertz/pkg/protocol/http1/proxy"
 	reqI "github.com/cloudwego/hertz/pkg/protocol/http1/req"
 	respI "github.com/cloudwego/hertz/pkg/protocol/http1/resp"
@@ -773,7 +774,7 @@ func (c *HostClient) doNonNilReqResp(req *protocol.Request, resp *protocol.Respo
 		retry := !errors.Is(err, errs.ErrBodyTooLarge)
 		return retry, err
 	}
-	shouldCloseConn = resetConnection || req.ConnectionClose() || resp.ConnectionClose()
+	shouldCloseConn = resetConnection || req.ConnectionClose() || resp.ConnectionClose() || requestSaysClose(&req.Header)
 	// A body that was skipped although the server sends one (the caller set SkipBody,
 	// or a CONNECT was refused with an ordinary response) is still on the wire: the
 	// connection cannot carry another exchange. (The response to a HEAD has none.)
@@ -962,6 +963,18 @@ func (c *HostClient) queueForIdle(w *wantConn) {
 	}
 	c.connsWait.clearFront()
 	c.connsWait.pushBack(w)
+}
+
+// requestSaysClose reports the close option the caller spelled otherwise than "close"
+// ("Close", "TE, close"): Connection is a list of case-insensitive tokens, on the
+// request as on the response.
+func requestSaysClose(h *protocol.RequestHeader) bool {
+	for _, v := range h.PeekAll(consts.HeaderConnection) {
+		if ext.HasHeaderValue(v, bytestr.StrClose) {
+			return true
+		}
+	}
+	return false
 }
 
 func (c *HostClient) dialConnFor(w *wantConn) {
